@@ -1232,6 +1232,40 @@ func loopFacts1(L *Lin, g *Gate, s *Summary, fn *ssa.Function) {
 						L.leE(p, init, 0)
 					}
 				}
+				// a counter that lags the position: p advances by at most one per iteration, the position
+				// q of the same loop by exactly one on every iteration, so p - q never grows:
+				// p <= q + (p0 - q0).  ("kept" in an in-place compaction: kept <= index of the element read)
+				if up && len(inits) == 1 && inits[0] != nil && maxStepAtMostOne(l, ph) {
+					if c0, isC := inits[0].IntVal(); isC {
+						for _, in2 := range l.Header.Instrs {
+							ip, ok := in2.(*ssa.Phi)
+							if !ok {
+								break
+							}
+							q := s.Env[ip]
+							if ip == ph || q == nil || q.Op != "loopphi" || !isIntLike(q) || !stepsExactlyOne(l, ip) {
+								continue
+							}
+							var q0 *int64
+							okInit := true
+							for i, pr := range l.Header.Preds {
+								if l.Blocks[pr] {
+									continue
+								}
+								cv, isK := ip.Edges[i].(*ssa.Const)
+								if !isK || cv.Value == nil || q0 != nil {
+									okInit = false
+									continue
+								}
+								v := cv.Int64()
+								q0 = &v
+							}
+							if okInit && q0 != nil {
+								L.leE(p, q, c0-*q0)
+							}
+						}
+					}
+				}
 				// inductive lower bound for a φ that is not a counter (start = i + 1 on some iterations,
 				// unchanged on others): with a constant initial value c, if every value carried around
 				// the loop is the φ itself or provably >= c given φ >= c and the facts known so far,
@@ -1599,6 +1633,46 @@ func stepsExactlyOne(l *Loop, ph *ssa.Phi) bool {
 		n++
 		st, ok := stepOf(ph.Edges[i], ph)
 		if !ok || st != 1 {
+			return false
+		}
+	}
+	return n > 0
+}
+
+// maxStepAtMostOne: on every path around the loop ph becomes ph or ph+1 (φ-merges inside the body
+// followed on all their edges).
+func maxStepAtMostOne(l *Loop, ph *ssa.Phi) bool {
+	seen := map[ssa.Value]bool{}
+	var walk func(v ssa.Value) bool
+	walk = func(v ssa.Value) bool {
+		if v == ssa.Value(ph) || seen[v] {
+			return true
+		}
+		seen[v] = true
+		switch y := v.(type) {
+		case *ssa.BinOp:
+			cv, ok := y.Y.(*ssa.Const)
+			return ok && y.Op == token.ADD && y.X == ssa.Value(ph) && cv.Value != nil && (cv.Int64() == 0 || cv.Int64() == 1)
+		case *ssa.Phi:
+			if !l.Blocks[y.Block()] {
+				return false
+			}
+			for _, ed := range y.Edges {
+				if !walk(ed) {
+					return false
+				}
+			}
+			return true
+		}
+		return false
+	}
+	n := 0
+	for i, pr := range l.Header.Preds {
+		if !l.Blocks[pr] {
+			continue
+		}
+		n++
+		if !walk(ph.Edges[i]) {
 			return false
 		}
 	}
